@@ -406,10 +406,9 @@ fn cpp_adaptor_exec(rep: &mut Report, rng: &mut Rng, thorough: bool) {
     }
     let cases = cpp_cases(rng, if thorough { 1500 } else { 150 });
     // the model's foreign writer with "every growth grants exactly the request" and the prefix as initial contents
+    // CppStr.lean: the adaptor with flushes anywhere (Props/C12.cpp_string_exact_with_flushes)
     let lines: Vec<String> = cases.iter().map(|(init, chunks)| {
-        let grows = chunks.len() + 2;
-        let chunks: Vec<String> = chunks.iter().filter(|c| *c != FLUSH).cloned().collect(); // the model's foreign flush leaves the state alone
-        Case::Foreign { cap: init.len(), init: init.clone(), chunks: chunks.clone(), answers: vec![Some(0); grows] }.sexp()
+        format!("(cppstr {} {})", bytes_sexp(init), chunks.iter().map(|c| if c == FLUSH { "f".to_string() } else { bytes_sexp(c) }).collect::<Vec<_>>().join(" "))
     }).collect();
     let model = match crate::model::run_model("C12", &lines) { Ok(m) => m, Err(e) => { rep.disagree("cpp-adaptor-exec", "model-driver", "", &e); return; } };
     let input: String = cases.iter().map(|(i, cs)| format!("{} {}\n", if i.is_empty() { "-".into() } else { hexs(i.as_bytes()) }, cs.iter().map(|c| if c.is_empty() { "-".to_string() } else { hexs(c.as_bytes()) }).collect::<Vec<_>>().join(","))).collect();
@@ -445,8 +444,9 @@ fn cpp_adaptor_exec(rep: &mut Report, rng: &mut Rng, thorough: bool) {
         }
         // tie with the model line: len=… failed=… bytes=…
         let mf: std::collections::BTreeMap<&str, &str> = m.split(' ').filter_map(|kv| kv.split_once('=')).collect();
-        let real = format!("len={} failed={} bytes={}", f.get("len").unwrap_or(&"?"), f.get("failed").unwrap_or(&"?"), show_bytes(&bytes));
-        let modl = format!("len={} failed={} bytes={}", mf.get("len").unwrap_or(&"?"), mf.get("failed").unwrap_or(&"?"), mf.get("bytes").unwrap_or(&"?"));
+        // the model's `oob` (a store outside the string) is what the `_grow` wrapper and the audit observe (bits 1, 2, 4)
+        let real = format!("len={} oob={} bytes={}", f.get("len").unwrap_or(&"?"), bad & 7 != 0, show_bytes(&bytes));
+        let modl = format!("len={} oob={} bytes={}", mf.get("len").unwrap_or(&"?"), mf.get("oob").unwrap_or(&"?"), mf.get("bytes").unwrap_or(&"?"));
         if real != modl {
             rep.disagree(&case, "cpp-adaptor-state", &real, &modl);
         }
